@@ -250,6 +250,10 @@ def inline_new_helpers(tree: ast.Module, known: set) -> int:
         if any(isinstance(x, ast.Name) and x.id == name and isinstance(x.ctx, ast.Load)
                and cls is not None for x in ast.walk(tree)):
             continue        # aliased in the class body: not a plain helper
+        if not any((isinstance(x, ast.Attribute) and x.attr == name) or
+                   (isinstance(x, ast.Name) and x.id == name and isinstance(x.ctx, ast.Load))
+                   for x in ast.walk(tree)):
+            continue        # never named anywhere: not a helper (it may override a hook called by name)
         cands[name] = (qual, fn, owner, cls, kind, payload, 'staticmethod' in decos)
     if not cands:
         return 0
